@@ -674,8 +674,10 @@ def main(argv):
     befores = [None, "*"] + (kept_keys + ["area", "volume", "bounds", "triangles", "face_adjacency_angles", "mass_properties", "convex_hull", "q:ray_hits", "q:nearest", "q:contains"]
                              if tier == "quick" else keys)
     befores = list(dict.fromkeys(befores))
-    for sname in sd_names:
+    for sname in sd_names + (["ico_holes"] if "ico_holes" not in sd_names else []):
         for mu in mutators + ["edit", "copy_cache"]:
+            if sname == "ico_holes" and tier == "quick" and mu not in ("repair", "faces_mask", "invert", "process"):
+                continue
             nv = len(EDITS) if mu == "edit" else 2 if mu == "copy_cache" else len(MUTATORS[mu])
             for vi in range(nv):
                 for k1 in befores:
